@@ -349,6 +349,16 @@ class BlsFamily:
                     m0 = b"shared"
                     sgs = [oracle_sig(s_, m0, tag) for s_ in sks]
                     a0 = bytes(S.Aggregate(sgs))
+                    # keys that sum to the identity (K1: the verdict is False; it must be a verdict, not an exception)
+                    pneg = oracle_pk(R - sks[0])
+                    ident_sig = bytes([0xc0]) + bytes(95)
+                    canc = bytes(S.Aggregate([oracle_sig(sks[0], m0, tag), oracle_sig(R - sks[0], m0, tag)]))
+                    for lab, ks_, sg_ in (("[pk, -pk] with the identity signature", [pks[0], pneg], ident_sig),
+                                          ("[pk, -pk] with their aggregate", [pks[0], pneg], canc),
+                                          ("[-pk, pk] with another signature", [pneg, pks[0]], sgs[0])):
+                        got_ = fav(ks_, m0, sg_)
+                        if not isinstance(got_, bool):
+                            checks.append((f"fast: keys summing to the identity, {lab}: must return a boolean", got_, False))
                     checks += [("fast: valid", fav(pks, m0, a0), True), ("fast: other message", fav(pks, b"x", a0), False),
                                ("fast: empty", fav([], m0, a0), False), ("fast: malformed key", fav([b"\x00" + pks[0]] + pks[1:], m0, a0), False),
                                ("fast: non-subgroup key", fav([g1_nonsub(rng)] + pks[1:], m0, a0), False)]
